@@ -17,3 +17,28 @@ MUTANTS = [
     dict(id='c01-lhx-ring-halved', props=['C01'], file='lib/lhx_decoder.c',
          old='#define HISTORY_BITS    20', new='#define HISTORY_BITS    18'),
 ]
+MUTANTS += [
+    # ---- C03 ----
+    dict(id='c03-lz5-fill-swapped', props=['C03'], file='lib/lz5_decoder.c',
+         old='\tfor (i = 0; i < 256; ++i) {\n\t\t*p++ = (uint8_t) i;\n\t}\n\tfor (i = 0; i < 256; ++i) {\n\t\t*p++ = (uint8_t) (255 - i);\n\t}',
+         new='\tfor (i = 0; i < 256; ++i) {\n\t\t*p++ = (uint8_t) (255 - i);\n\t}\n\tfor (i = 0; i < 256; ++i) {\n\t\t*p++ = (uint8_t) i;\n\t}'),
+    dict(id='c03-lz5-start-17', props=['C03'], file='lib/lz5_decoder.c', old='#define START_OFFSET 18', new='#define START_OFFSET 17'),
+    dict(id='c03-lz5-flags-msb', props=['C03'], file='lib/lz5_decoder.c', old='if ((bitmap & (1 << bit)) != 0) {', new='if ((bitmap & (0x80 >> bit)) != 0) {'),
+    dict(id='c03-lzs-start-18', props=['C03'], file='lib/lzs_decoder.c', old='#define START_OFFSET 17', new='#define START_OFFSET 18'),
+    dict(id='c03-lz5-spaces-109', props=['C03'], file='lib/lz5_decoder.c', old='for (i = 0; i < 110; ++i) {', new='for (i = 0; i < 109; ++i) {'),
+    dict(id='c03-null-block-1000', props=['C03'], file='lib/null_decoder.c', old='return decoder->callback(buf, BLOCK_READ_SIZE, decoder->callback_data);',
+         new='size_t n = decoder->callback(buf, BLOCK_READ_SIZE, decoder->callback_data); if (n == 1024 && buf[1023] == 0x1a) --n; return n;'),
+]
+MUTANTS += [
+    # ---- C02 ----
+    dict(id='c02-rebuild-gt', props=['C02'], file='lib/lh1_decoder.c',
+         old='if (decoder->nodes[0].freq >= TREE_REORDER_LIMIT) {', new='if (decoder->nodes[0].freq > TREE_REORDER_LIMIT) {'),
+    dict(id='c02-halving-floor', props=['C02'], file='lib/lh1_decoder.c',
+         old='leaf->freq = (uint16_t) (decoder->nodes[i].freq + 1) / 2;', new='leaf->freq = (uint16_t) (decoder->nodes[i].freq) / 2;'),
+    dict(id='c02-rebuild-insert-gt', props=['C02'], file='lib/lh1_decoder.c',
+         old='while (leaf >= decoder->nodes && freq >= leaf->freq) {', new='while (leaf >= decoder->nodes && freq > leaf->freq) {'),
+    dict(id='c02-no-leader-swap-on-join', props=['C02'], file='lib/lh1_decoder.c',
+         old='\tif (leader_index == node_index) {\n\t\treturn node_index;\n\t}',
+         new='\tif (leader_index == node_index || leader_index + 1 == node_index) {\n\t\treturn node_index;\n\t}'),
+    dict(id='c02-offset-dist-7bits', props=['C02'], file='lib/lh1_decoder.c', old='\t24,   // 7 bits\n\t16,   // 8 bits', new='\t23,   // 7 bits\n\t18,   // 8 bits'),
+]
